@@ -58,7 +58,7 @@ func (t *qeTable) col(name string) int {
 // ---- generator pools ---------------------------------------------------------
 
 var (
-	qeHostNames = []string{"alpha", "Alpha", "ALPHA", "beta", "db.prod", "a.b.c", "x.1", "web01", "Web01", "Zürich", "ÄPFEL", "äpfel", "日本", "gw", "h-1", "h_2", "node.lan.example", "mail"}
+	qeHostNames = []string{"alpha", "Alpha", "ALPHA", "beta", "db.prod", "a.b.c", "x.1", "x", "web", "web-2", "web01", "Web01", "Zürich", "ÄPFEL", "äpfel", "日本", "gw", "h-1", "h_2", "node.lan.example", "mail"}
 	qeSvcNames  = []string{"ping", "Ping", "http", "HTTP", "disk /", "load", "cpu.usage", "Über", "ssh"}
 	qeGroups    = []string{"linux", "Linux", "prod", "web", "db.cluster", "Everything", "empty", "über"}
 	qeSGroups   = []string{"critical", "Web", "web", "infra.core", "none"}
